@@ -76,6 +76,10 @@ CHECKS = {
    text="DOM-truth monitor for @extend: the credited semantics (an element counts as matching target T iff it matches T natively or, recursively, an extender of T; least fixed point) is computed by the monitor on the SOURCE selectors and every rewritten selector read from the output is judged on all ordered forests with <= 3 elements (thorough: 4) over the case's features: soundness, completeness for single-compound extenders, first law, second law (negation/pseudo-free cases), no placeholder in the output, order independence (source order vs reversed, compared by match sets), plus the @media / !optional / missing-target families",
    note="inside :not() only plain single-compound extenders are judged for soundness (Sass deliberately under-extends there); sheets combining negation with chained extends, and outputs too large for the DOM oracle, are inconclusive; five known findings (missing target accepted, extension across @media, self-extension blow-up, two order-dependence classes that mirror the reference algorithm) are matched narrowly",
    technique="runtime monitoring: exhaustive small-model (DOM enumeration) oracle with credited-semantics fixed point over compiled outputs"),
+ "C13": dict(engine="vw+vp+strace",
+   text="(a) reference-model monitor: vp/model/imports.py (the documented search: importing file's directory then load paths in order; literal+partial for explicit extensions; import-only files for @import; .sass/.scss then .css then index files; extension appended to the whole basename) must select the file whose self-naming marker reaches the output, or both must fail; (b) offline checker of the Fs call trace recorded by the harness' in-memory Fs: every is_file/is_dir target is a candidate of that search and only the entry and the chosen file are read; (c) isolation: the worker's real working directory is populated with decoys that would win if the real disk were consulted; (d) plain-CSS imports emitted without touching the Fs; (e) a missing import is an error located at the import site; thorough adds strace on a batch (no file syscall during compilations)",
+   note="ambiguous layouts are not generated (excluded by the quantifier); virtual paths are relative so that real-disk decoys in the cwd are meaningful",
+   technique="runtime monitoring: reference-model oracle + offline event-log (Fs trace) confinement checker + real-disk decoys; strace in thorough tier"),
 }
 
 ALL = ["C%02d" % i for i in range(1, 21)]
